@@ -336,6 +336,10 @@ Definition get_msg_params K (lib : synthlib) (e : event) : event * list (string 
 Definition action_number (v : value) : Z :=
   match v with
   | VNum (I z) => if (0 <=? z)%Z && (z <=? 4)%Z then z else (-1)%Z        (* 0: 0, 1: 1, ... 4: 4 *)
+  | VNum (F q) =>                                                          (* 2.0 == 2 as a dict key *)
+      let z := Qfloor q in
+      if Qeq_bool q (inject_Z z) && (0 <=? z)%Z && (z <=? 4)%Z then z else (-1)%Z
+  | VBool b => if b then 1%Z else 0%Z                                      (* True == 1, False == 0 *)
   | _ =>
   let s := sym_of v in
   if String.eqb s "addToHead" || String.eqb s "head" || String.eqb s "h" then 0
